@@ -85,7 +85,7 @@ def run(c):
             cases.append({"id": len(cases), "runner": impl.split("+")[0], "init_cmd": impl.endswith("+init"), "submounts": subm, "mounts": mounts, "probe": probe})
             metas.append((ti, impl))
     obs = c.run_harness("/usr/bin/unshare", cases, args=("-m", "--propagation", "private", exe), env=env, timeout=1500)
-    items, src = [], []
+    items, src, mask_items = [], [], []
     for x, (ti, impl), o in zip(cases, metas, obs):
         if "harness_err" in o:
             raise RuntimeError(o["harness_err"])
@@ -147,6 +147,8 @@ def run(c):
         src.append(x["id"])
         if o.get("kcore_read", None) is not None:
             pass
+        if impl != "ns" and any(m["kind"] == "proc" for m in kept) and pr["kcore_read"] != -2:
+            mask_items.append("(%s, %s)" % ("true" if x["init_cmd"] else "false", "true" if pr["kcore_read"] > 0 else "false"))
         if impl != "ns" and any(m["kind"] == "proc" for m in kept) and pr["kcore_read"] not in (0, -2):
             c.finding_or_violation(cz("a masked path reveals content", dev_null_in_container=bool(x["init_cmd"])), dict(rep, bytes_read_from_proc_timer_list=pr["kcore_read"]), klass="mask")
     c.sample({"implementation": metas[0][1], "mounts": cases[0]["mounts"], "mountinfo": (obs[0].get("mountinfo") or "").splitlines()[:10],
@@ -154,7 +156,12 @@ def run(c):
     dis = []
     body = HDR + ("Definition cs : list (list (nat * list (list nat * bool)) * list decl * list (list nat * bool) * list (list nat * bool)) := %s.\n"
                   "Definition M := Eval vm_compute in failing table_ok cs.\nPrint M.\n") % coq_list(items)
-    for i in c.parse_nums(c.parse_printed(c.coq_eval("tables", body, timeout=1200), "M").replace("%N", "")):
+    body += "Definition ms : list (bool * bool) := %s.\nDefinition MM := Eval vm_compute in failing mask_ok ms.\nPrint MM.\n" % coq_list(mask_items)
+    cout = c.coq_eval("tables", body, timeout=1200)
+    if c.parse_nums(c.parse_printed(cout, "MM").replace("%N", "")):
+        dis.append({"relation": "mask_ok (a masked /proc file is readable iff mask_one says exposed)", "cases": mask_items})
+    c.cov["mask_observations_compared_in_coq"] = len(mask_items)
+    for i in c.parse_nums(c.parse_printed(cout, "M").replace("%N", "")):
         j = src[i]
         dis.append({"relation": "table_ok (mount table of the sandboxed process = build_table of the declared mounts)", "implementation": metas[j][1],
                     "mounts": cases[j]["mounts"], "mountinfo": (obs[j].get("mountinfo") or "").splitlines()})
